@@ -144,24 +144,32 @@ def expected_raw(st: Dict[str, Any]) -> Tuple[str, List[str], bool, List[str]]:
 
 
 def eval_script(stmts: Sequence[Dict[str, Any]], order: Sequence[int], inputs: Dict[str, Dict[int, Fraction]]):
-    """Reference semantics of the generated language (sum of operands per identifier; scalars are plain numbers)."""
+    """Reference semantics of the generated language, computed from the full script by name (sum of operands per identifier;
+    scalars are plain numbers).  `order` is ignored: every value is the one its defining statement denotes."""
     env: Dict[str, Any] = dict(inputs)
-    for i in order:
-        st = stmts[i]
+    by_out = {st["out"]: st for st in stmts}
+
+    def val_of(name: str, depth: int = 0):
+        if name in env:
+            return env[name]
+        if depth > 50:
+            raise ValueError("cyclic script has no reference value")
+        st = by_out[name]
         if st["kind"] == "sc":
             v = Fraction(st["const"])
             for o in st["ops"]:
-                v += env[o]
-            env[st["out"]] = v
-            continue
+                v += val_of(o, depth + 1)
+            env[name] = v
+            return v
         acc: Optional[Dict[int, Fraction]] = None
         add = Fraction(0)
         for j, o in enumerate(st["ops"]):
-            val = env[o]
+            val = val_of(o, depth + 1)
             if isinstance(val, dict):
                 cur = dict(val)
                 if j == 0 and st.get("clause"):
-                    cur = {k: v + env[st["clause"]] for k, v in cur.items()}
+                    sc = val_of(st["clause"], depth + 1)
+                    cur = {k: v + sc for k, v in cur.items()}
                 if j == 0 and st.get("clause_plain"):
                     cur = {k: v + st["const"] for k, v in cur.items()}
                 acc = cur if acc is None else {k: acc[k] + cur[k] for k in acc if k in cur}
@@ -169,7 +177,11 @@ def eval_script(stmts: Sequence[Dict[str, Any]], order: Sequence[int], inputs: D
                 add += val
         if st["const"] and not st.get("clause_plain"):
             add += st["const"]
-        env[st["out"]] = {k: v + add for k, v in acc.items()}
+        env[name] = {k: v + add for k, v in acc.items()}
+        return env[name]
+
+    for st in stmts:
+        val_of(st["out"])
     return env
 
 
@@ -516,7 +528,7 @@ def permuted(rng: random.Random, stmts: List[Dict[str, Any]]) -> List[Dict[str, 
 
 
 def gen_shape_cases(rng: random.Random, tier: str, max_exh_quick: int = 4, max_exh_thorough: int = 6,
-                    sampled_quick: int = 1500) -> List[Dict[str, Any]]:
+                    sampled_quick: int = 700) -> List[Dict[str, Any]]:
     """Exhaustive dependency shapes (upper-triangular patterns) x persistent masks x sampled input usage x one sampled
     textual permutation; beyond the exhaustive bound of the tier, sampled shapes."""
     cases: List[Dict[str, Any]] = []
@@ -534,7 +546,7 @@ def gen_shape_cases(rng: random.Random, tier: str, max_exh_quick: int = 4, max_e
                 pms = list(range(1 << n))
                 reps = 2 if tier == "thorough" else 1
             elif tier == "thorough":
-                pms = [rng.randrange(1 << n) for _ in range(4 if n == 5 else 3)]
+                pms = [rng.randrange(1 << n) for _ in range(4 if n == 5 else 2)]
                 reps = 1
             else:
                 pms = [rng.randrange(1 << n) for _ in range(3)]
@@ -586,11 +598,11 @@ def gen_graph_cases(rng: random.Random, tier: str) -> List[Dict[str, Any]]:
         for bits in range(1 << (n * n)):
             reads = [[j for j in range(n) if bits >> (i * n + j) & 1] for i in range(n)]
             mk(n, reads, [f"DS_{i + 1}" for i in range(n)], [bool((bits + i) % 3 == 0) for i in range(n)], "digraph")
-    for _ in range(4000 if tier == "thorough" else 500):
+    for _ in range(4000 if tier == "thorough" else 250):
         n = rng.randint(3, 4)
         reads = [[j for j in range(n) if rng.random() < 0.3] for i in range(n)]
         mk(n, reads, [f"DS_{i + 1}" for i in range(n)], [rng.random() < 0.3 for _ in range(n)], "digraph")
-    for _ in range(4000 if tier == "thorough" else 500):  # duplicated names
+    for _ in range(4000 if tier == "thorough" else 250):  # duplicated names
         n = rng.randint(2, 4)
         k = rng.randint(1, n - 1) if n > 1 else 1
         names = [f"DS_{rng.randint(1, k)}" for _ in range(n)]
@@ -702,11 +714,18 @@ def dag_tie(ctx, pool: "Pool", cases: List[Dict[str, Any]], tag: str) -> Dict[st
 
 
 # ------------------------------------------------------------------------------------------------ upstream corpus
-def corpus_scripts(repo_tests: Path) -> List[Dict[str, Any]]:
+def corpus_scripts(repo_tests: Path, multi_only: bool = True) -> List[Dict[str, Any]]:
     """every tests/**/data/vtl/*.vtl with the input structures / datapoints / value domains lying next to it
     (tests/Helper.py layout: data/DataStructure/input/<code>-*.json, data/DataSet/input/<code>-*.csv)"""
     out = []
     for f in sorted(repo_tests.rglob("*.vtl")):
+        if multi_only:
+            try:
+                txt = f.read_text()
+            except Exception:
+                continue
+            if txt.count(":=") + txt.count("<-") < 2:   # cheap superset test; the exact count comes from the parsed AST
+                continue
         d = f.parent.parent
         stem = f.stem
         sj = sorted((d / "DataStructure" / "input").glob(f"{stem}-*.json")) if (d / "DataStructure" / "input").is_dir() else []
